@@ -9,7 +9,7 @@ ROOT = verif.ROOT
 MODEL_FILES = ["coq/Forkchoice/ProtoArray.v", "coq/Forkchoice/VoteStore.v", "coq/Forkchoice/Wrapper.v",
                "coq/Forkchoice/TreeSpec.v", "coq/Forkchoice/GhostSpec.v", "coq/Forkchoice/Step.v",
                "coq/Forkchoice/ArrayProofs.v", "coq/Forkchoice/UpdateProofs.v", "coq/Forkchoice/TreeProofs.v",
-               "coq/Forkchoice/GhostProofs.v", "coq/Forkchoice/Refuted.v", "coq/Forkchoice/Run.v", "coq/Forkchoice/WalkProofs.v"]
+               "coq/Forkchoice/GhostProofs.v", "coq/Forkchoice/Refuted.v", "coq/Forkchoice/Run.v", "coq/Forkchoice/WalkProofs.v", "coq/Forkchoice/WeightProofs.v", "coq/Forkchoice/LinkProofs.v"]
 
 TRUST = [
     "hand-written Impl model coq/Forkchoice/{ProtoArray,VoteStore,Wrapper}.v of proto_array.go, votestore.go, forkchoice.go "
